@@ -334,6 +334,11 @@ def thread_known_variants(body, only_from=None, budget=60, bools=False):
                 if t.get("discr_ty") == "bool" and s["rv"]["k"] == "use" and s["rv"]["op"]["k"] in ("copy", "move") and not s["rv"]["op"]["place"]["proj"]:
                     d = s["rv"]["op"]["place"]["local"]
                     continue
+                if t.get("discr_ty") == "bool" and bools and s["rv"]["k"] == "use" and s["rv"]["op"]["k"] in ("copy", "move") \
+                        and _payload_path(s["rv"]["op"]["place"]["proj"]):
+                    # `if helper(..)? {` : the bool tested is the payload of a Result / ControlFlow
+                    nested[0] = _payload_path(s["rv"]["op"]["place"]["proj"])
+                    return s["rv"]["op"]["place"]["local"]
                 return None
         named = {dbg["value"].get("local") for dbg in body.get("debug", []) if "local" in dbg["value"] and not dbg["value"]["proj"]}
         if t.get("discr_ty") == "bool" and bools and d not in named and d > body.get("arg_count", 0):
@@ -371,6 +376,13 @@ def thread_known_variants(body, only_from=None, budget=60, bools=False):
                 c = t["callee"].get("path")
                 if c == "std::ops::Try::branch" and t["dest"]["local"] == q and not t["dest"]["proj"] and t["args"][0]["k"] in ("copy", "move") and not t["args"][0]["place"]["proj"]:
                     q = t["args"][0]["place"]["local"]
+                    if path:
+                        # the payload of Continue(v) is the payload of Ok(v) / Some(v)
+                        aty = body["locals"][q]["ty"]["s"]
+                        into = "Ok" if aty.startswith("std::result::Result") else ("Some" if aty.startswith("std::option::Option") else None)
+                        if path[0][0] != "Continue" or into is None:
+                            continue
+                        path = ((into, path[0][1]),) + tuple(path[1:])
                 elif c == "std::ops::FromResidual::from_residual" and t["dest"]["local"] == q and not t["dest"]["proj"]:
                     # `return Err(e.into())` of the `?` operator: the value is the failure variant
                     qty = body["locals"][q]["ty"]["s"]
@@ -397,6 +409,10 @@ def thread_known_variants(body, only_from=None, budget=60, bools=False):
                     if rv["k"] == "aggregate" and rv["kind"]["k"] == "adt" and path:
                         # the value tested lies inside this aggregate: follow the payload
                         v0, f0 = path[0]
+                        if rv["kind"]["variant"] == v0 and f0 < len(rv["ops"]) and len(path) == 1 and S["term"].get("discr_ty") == "bool" \
+                                and rv["ops"][f0]["k"] == "const" and rv["ops"][f0].get("bits") in ("0", "1"):
+                            known = int(rv["ops"][f0]["bits"])
+                            break
                         if rv["kind"]["variant"] == v0 and f0 < len(rv["ops"]) and rv["ops"][f0]["k"] in ("copy", "move") and not rv["ops"][f0]["place"]["proj"]:
                             q = rv["ops"][f0]["place"]["local"]
                             path = path[1:]
